@@ -221,7 +221,7 @@ type stateSub struct {
 }
 
 func newStateSub(ctx context.Context) *stateSub {
-	sb := &stateSub{wake: make(chan struct{}, 1), out: make(chan string)}
+	sb := &stateSub{wake: make(chan struct{}, 1), out: make(chan string, 1)} // cap 1 like finitestate's wrapped channel
 	go func() {
 		defer close(sb.out)
 		for {
